@@ -414,3 +414,17 @@ ben("c03-json-explicit-default", ["C03"], (IO, "json.dump(cls.parse_json_submani
 brk("c16-early-return-skips-storage-file", ["C16"], (IMG, "        # The suit storage file for update path contains only update candidate info; installed envelope is not touched\n        uci_hex = IntelHex()\n", "        if update_candidate_size == 0:\n            return\n        uci_hex = IntelHex()\n"))
 brk("c12-early-return-skips-record", ["C12"], (MPI, "        \"\"\"Generate HEX file for a single manifest role.\"\"\"\n", "        \"\"\"Generate HEX file for a single manifest role.\"\"\"\n        if not class_name:\n            return\n"))
 brk("c01-early-return-skips-digest", ["C01"], (ENV, "    def update_digest(self):\n        \"\"\"Update digest in the envelope.\"\"\"\n", "    def update_digest(self):\n        \"\"\"Update digest in the envelope.\"\"\"\n        if getattr(self, \"_digest_final\", False):\n            return\n"))
+
+# ------------------------------------------------------------------ the analysed effect is absent (generic.absent -> VIOLATION, not exit 2)
+brk("c16-storage-file-not-written", ["C16"], (IMG, "        uci_hex.write_hex_file(file_name)\n", "        pass\n"))
+brk("c12-record-not-written", ["C12"], (MPI, "        mpi_hex.write_hex_file(output_file)\n", "        pass\n"))
+brk("c12-merge-dropped", ["C12"], (MPI, "                merged_hex.merge(slot_hex)\n", "                pass\n"))
+brk("c07-envelopes-not-added", ["C07"], (IMG, "        for envelope in envelopes:\n            storage.add_envelope(envelope)\n", "        for envelope in envelopes:\n            pass\n"))
+brk("c10-padding-call-dropped", ["C10"], (CACHE, "self.add_padding(", "bytes("))
+brk("c11-dependency-guard-flipped", ["C11"], (CACHE, "        if dependency_regex is not None:\n            integrated_dependencies", "        if dependency_regex is None:\n            integrated_dependencies"))
+brk("c11-omit-guard-flipped", ["C11"], (CACHE, "        if omit_payload_regex is None:\n            payloads_to_extract = integrated", "        if omit_payload_regex is not None:\n            payloads_to_extract = integrated"))
+brk("c10-from-payloads-swapped", ["C10"], (CACHE, "            cache.add_cache_slot(uri, data)\n", "            cache.add_cache_slot(data, uri)\n"))
+brk("c10-from-payloads-dropped", ["C10"], (CACHE, "            cache.add_cache_slot(uri, data)\n", "            pass\n"))
+brk("c10-merge-file-dropped", ["C10"], (CACHE, "            cache.merge_single_cache_file(single_input)\n", "            pass\n"))
+brk("c10-close-dropped", ["C10"], (CACHE, '    cache.close_and_save_cache(kwargs["output_file"])\n', "    pass\n"))
+brk("c10-item-arity", ["C10"], (CACHE, "            if len(args) < 2:", "            if len(args) <= 2:"))
